@@ -162,6 +162,7 @@ rp_write(rp *p, const void *buf, size_t len)
 		if (n > 0) {
 			b += n;
 			len -= (size_t) n;
+			p->wr_total += (size_t) n;
 			stall = 0;
 			continue;
 		}
